@@ -45,7 +45,7 @@ def reported_dx(which):
     check('wrong-space-raises', did_raise(lambda: (wf.unfocus(efl, Q=Q) if which == 'focus' else wf.focus(efl, Q=Q)), ValueError))
 
 
-@harness('C03', 'bounded/tilt-lands-where-physics-says', kind='bounded', variants=['fft-route', 'fixed-sampling', 'shift-translates', 'unfocus-tilt'],
+@harness('C03', 'bounded/tilt-lands-where-physics-says', kind='bounded', variants=['fft-route', 'fixed-sampling', 'shift-translates', 'unfocus-tilt', 'unfocus-fft-route'],
          fuc=['prysm.propagation.Wavefront.focus', 'prysm.propagation.focus_fixed_sampling', 'prysm.propagation.unfocus_fixed_sampling',
               'prysm.propagation.Wavefront.focus_fixed_sampling', 'prysm.propagation.Wavefront.unfocus_fixed_sampling'])
 def tilt_lands(which):
@@ -109,6 +109,24 @@ def tilt_lands(which):
         a = pr.focus_fixed_sampling(pupil, dx, efl, wvl, odx, S, shift=(sx, sy), method='mdft')
         b = pr.focus_fixed_sampling(pupil, dx, efl, wvl, odx, S, shift=(sx, sy), method='czt')
         check('methods-agree-on-direction', locate(a, odx, odx) == locate(b, odx, odx))
+    elif which == 'unfocus-fft-route':
+        # FFT route, focal plane of ANY parity: a real spot displaced by (py, px) samples from the origin sample unfocuses to
+        # exactly py and px waves of tilt across the pupil array, with zero phase at the pupil origin sample, and focusing that
+        # pupil puts the spot back where it was
+        M, N = int(rng.integers(3, 12)), int(rng.integers(3, 12))
+        py, px = int(rng.integers(-(M // 2), (M - 1) // 2 + 1)), int(rng.integers(-(N // 2), (N - 1) // 2 + 1))
+        spot = np.zeros((M, N))
+        spot[M // 2 + py, N // 2 + px] = 1.0
+        wf = pr.Wavefront(spot, wvl, dx, 'psf')
+        pup = wf.unfocus(efl, Q=1)
+        ii, jj = np.meshgrid(np.arange(M) - M // 2, np.arange(N) - N // 2, indexing='ij')
+        want = np.exp(2j * np.pi * (py * ii / M + px * jj / N)) / np.sqrt(M * N)
+        check('pupil-is-the-tilt-of-the-displaced-spot', bool(np.allclose(pup.data, want, atol=1e-9)))
+        back = pup.focus(efl, Q=1)
+        I = abs(back.data) ** 2
+        check('spot-returns-to-its-sample', np.unravel_index(np.argmax(I), I.shape) == (M // 2 + py, N // 2 + px) and bool(np.isclose(I.max(), 1.0)))
+        # and the free function agrees with the method
+        check('function-equals-method', bool(np.allclose(pr.unfocus(spot, 1), pup.data, atol=1e-12)))
     else:
         # a displaced focal spot unfocuses to the corresponding pupil tilt
         qq = max(2, int(np.ceil(2 * m / n)))
